@@ -19,3 +19,17 @@ s = bitarray([0] * 36); s[3] = 1; s[12] = 1
 print("ShortLC with zero CRC field: crc_ok =", ShortLinkControl.from_bits(s).crc_ok)
 d = bitarray([0] * 96); d[20] = 1
 print("Rate12 confirmed block with zero CRC-9 field: crc9_ok =", Rate12Data.from_bits_typed(d, Rate12DataTypes.Confirmed).crc9_ok)
+
+# ---- C12 known findings
+from okdmr.dmrlib.hytera.pdu.location_protocol import GPSData
+from datetime import time, date
+g = GPSData(data_valid="A", greenwich_time=time(1, 2, 3), greenwich_date=date(2020, 1, 2), north_south="N", latitude=12.5, east_west="E", longitude=13.5, speed_knots=12.5, direction=90)
+print("GPSData with speed 12.5 kn serialises to", len(g.as_bytes()), "bytes (fixed size 40)")
+from okdmr.dmrlib.hytera.pdu.text_message_protocol import TextMessageProtocol, TMPService
+from okdmr.dmrlib.hytera.pdu.radio_ip import RadioIP
+t = TextMessageProtocol(opcode=TMPService.SendPrivateMessage, source_ip=RadioIP(radio_id=1), destination_ip=RadioIP(radio_id=2), has_option=True, option_data=b"", text_data="hi", request_id=1)
+p = TextMessageProtocol.from_bytes(t.as_bytes())
+try:
+    p.as_bytes(); print("TMP zero-length option re-encodes")
+except TypeError as e:
+    print("TMP with option flag and zero-length option data: parsed option_data =", p.option_data, "-> re-encoding raises TypeError:", e)
